@@ -209,9 +209,27 @@ def dsort_task(task):
         keys.append(key(kind, o, sod))
     argv = [str(bindir / "dsort")] + (["-r"] if reverse else [])
     data = ("\n".join(lines) + "\n").encode("utf-8")
-    r = run(argv, stdin=data, cpu=30, wall=120)
+    nfiles = rng.choice([0, 0, 1, 2, 3, 5]) if nlines >= 2 else 0
+    tmpd = None
+    if nfiles:
+        # the same lines spread over FILE arguments (a file may be empty)
+        import tempfile
+        tmpd = tempfile.mkdtemp(prefix="c08-", dir=str(core.VERIF / ".build"))
+        cuts = sorted(rng.randrange(len(lines) + 1) for _ in range(nfiles - 1))
+        parts = [lines[a:b] for a, b in zip([0] + cuts, cuts + [len(lines)])]
+        for i, part in enumerate(parts):
+            fn = "%s/f%d" % (tmpd, i)
+            with open(fn, "wb") as fp:
+                fp.write(("\n".join(part) + ("\n" if part else "")).encode("utf-8"))
+            argv.append(fn)
+        r = run(argv, stdin=b"", cpu=30, wall=120)
+        import shutil
+        shutil.rmtree(tmpd, ignore_errors=True)
+    else:
+        r = run(argv, stdin=data, cpu=30, wall=120)
     sh.procs += 1
-    c = ("dsort", kind, "r" if reverse else "fwd", "n<10" if nlines < 10 else "n<100" if nlines < 100 else "n>=100")
+    c = ("dsort", kind, "r" if reverse else "fwd", "n<10" if nlines < 10 else "n<100" if nlines < 100 else "n>=100",
+         "stdin" if not nfiles else "files%d" % min(nfiles, 3))
     if sh.check_san(r, "san", "dsort:san"):
         return sh
     out = r.out.decode("utf-8", "replace").split("\n")
